@@ -257,10 +257,11 @@ func ToV3Parameter(components *openapi3.Components, parameter *openapi2.Paramete
 		if typ.Is("file") {
 			format, typ = "binary", &openapi3.Types{"string"}
 		}
-		if parameter.Extensions == nil {
-			parameter.Extensions = make(map[string]any, 1)
+		extensions := make(map[string]any, len(parameter.Extensions)+1)
+		for extName, ext := range parameter.Extensions {
+			extensions[extName] = ext
 		}
-		parameter.Extensions["x-formData-name"] = parameter.Name
+		extensions["x-formData-name"] = parameter.Name
 		var required []string
 		if parameter.Required {
 			required = []string{parameter.Name}
@@ -268,7 +269,7 @@ func ToV3Parameter(components *openapi3.Components, parameter *openapi2.Paramete
 		schemaRef := &openapi3.SchemaRef{Value: &openapi3.Schema{
 			Description:     parameter.Description,
 			Type:            typ,
-			Extensions:      stripNonExtensions(parameter.Extensions),
+			Extensions:      stripNonExtensions(extensions),
 			Format:          format,
 			Enum:            parameter.Enum,
 			Min:             parameter.Minimum,
@@ -547,7 +548,14 @@ func ToV3SchemaRef(schema *openapi2.SchemaRef) *openapi3.SchemaRef {
 	if val, ok := schema.Value.Extensions["x-nullable"]; ok {
 		if nullable, valid := val.(bool); valid {
 			v3Schema.Nullable = nullable
-			delete(v3Schema.Extensions, "x-nullable")
+			// dropped from a copy: the map belongs to the document being converted
+			extensions := make(map[string]any, len(v3Schema.Extensions))
+			for extName, ext := range v3Schema.Extensions {
+				if extName != "x-nullable" {
+					extensions[extName] = ext
+				}
+			}
+			v3Schema.Extensions = extensions
 		}
 	}
 
@@ -1366,12 +1374,17 @@ var attemptedBodyParameterNames = []string{
 
 // stripNonExtensions removes invalid extensions: those not prefixed by "x-" and returns them
 func stripNonExtensions(extensions map[string]any) map[string]any {
-	for extName := range extensions {
-		if !strings.HasPrefix(extName, "x-") {
-			delete(extensions, extName)
+	if extensions == nil {
+		return nil
+	}
+	// a filtered copy: the map belongs to the document being converted
+	stripped := make(map[string]any, len(extensions))
+	for extName, ext := range extensions {
+		if strings.HasPrefix(extName, "x-") {
+			stripped[extName] = ext
 		}
 	}
-	return extensions
+	return stripped
 }
 
 func addPathExtensions(doc2 *openapi2.T, path string, extensions map[string]any) {
